@@ -1,5 +1,6 @@
 """C10 — results depend only on the arguments: deterministic, isolated, non-mutating."""
 import copy
+import gc
 import random
 import sys
 import threading
@@ -194,6 +195,12 @@ def search(chk, broken):
             if chk.over():
                 break
             i, j = rng.randrange(len(shots)), rng.randrange(len(calcs))
+            if rng.random() < 0.3:
+                # the user drops a shot and builds another (other bullet, other table): objects of earlier calls die, their
+                # addresses are handed to new ones
+                shots[i] = None
+                gc.collect()
+                shots[i] = sg.gen_shot(pbc, rng, flat=True, atmo=shots[(i + 1) % len(shots)].atmo)[0]
             if raised_on is not None and rng.random() < 0.7:
                 j = raised_on          # what does a calculator do right after one of its calls raised?
             shot, calc = shots[i], calcs[j]
